@@ -104,7 +104,8 @@ HOSTNAME_LABEL = r"[^\s.:/?#@]+"
 SUBDOMAINS = r"(?:%s\.)*" % HOSTNAME_LABEL
 # NOTE: a colon after the hostname must introduce a port, else the "hostname"
 # could be the user of "user:password@realhost"
-DOMAIN_TEMPLATE = r"^(?:https?:)?(?://)?(?:[^\s/?#@]*@)?%s(?::\d*)?(?:[/?#]|\s*$)"
+# NOTE: the userinfo ends at the last "@" of the authority
+DOMAIN_TEMPLATE = r"^(?:https?:)?(?://)?(?:[^\s/?#]*@)?%s(?::\d*)?(?:[/?#]|\s*$)"
 
 SCRIPT_TAG = r"<script\b[^<]*(?:(?!<\/script>)<[^<]*)*<\/script>"
 SCRIPT_TAG_BINARY = SCRIPT_TAG.encode()
